@@ -59,6 +59,8 @@ type Contract struct {
 	Results  []string
 	Requires []Clause
 	Ensures  []Clause
+	BoundReq []Clause
+	Assumed  []Clause
 	Assigns  []string
 	HasFrame bool
 	Trusted  bool
@@ -207,8 +209,14 @@ func (eng *Engine) loadContractFile(root, path string) error {
 				return fmt.Errorf("%s:%d: clause outside func", path, ln.n)
 			}
 			cur.Requires = append(cur.Requires, parseClause(rest, path, ln.n))
+		case "boundrequires":
+			// the stated bound of a bounded (unrolled) proof: assumed for the body, no obligation for callers
+			cur.BoundReq = append(cur.BoundReq, parseClause(rest, path, ln.n))
 		case "ensures":
 			cur.Ensures = append(cur.Ensures, parseClause(rest, path, ln.n))
+		case "assumed":
+			// a postcondition callers may rely on but that is NOT checked against the body (listed as an assumption)
+			cur.Assumed = append(cur.Assumed, parseClause(rest, path, ln.n))
 		case "assert":
 			cur.Asserts = append(cur.Asserts, parseClause(rest, path, ln.n))
 		case "assigns":
@@ -1179,6 +1187,13 @@ func (e *Env) callExpr(x *ast.CallExpr) TV {
 	case "errIs":
 		a, b := e.eval(x.Args[0]), e.eval(x.Args[1])
 		return TV{T: sx("errIs", a.T, b.T), Ty: tBool}
+	case "notNil":
+		// interface value that is neither nil nor a typed nil pointer
+		v := e.eval(x.Args[0])
+		if u.ty.sortOf(v.Ty) != SIfc {
+			return TV{T: not(u.equal(v.Ty, v.T, u.ty.zero(v.Ty))), Ty: tBool}
+		}
+		return TV{T: and(not(eq(sx("ifc_tag", v.T), "0")), implies(sx("isPtrTag", sx("ifc_tag", v.T)), not(eq(sx("ifc_pay", v.T), "0")))), Ty: tBool}
 	case "isNil":
 		v := e.eval(x.Args[0])
 		return TV{T: u.equal(v.Ty, v.T, u.ty.zero(v.Ty)), Ty: tBool}
